@@ -239,4 +239,35 @@ theorem cos_two_arctan (τ : ℝ) : Real.cos (2 * Real.arctan τ) = (1 - τ ^ 2)
     rw [mul_div_cancel_left₀ _ (by norm_num : (2:ℝ) ≠ 0)]; exact (Real.cos_arctan_pos τ).ne'
   rw [cos_of_tan_half h, mul_div_cancel_left₀ _ (by norm_num : (2:ℝ) ≠ 0), Real.tan_arctan]
 
+
+/-! ### the two length formulas at the switch `e = 0.95` -/
+
+/-- Scalar form: with `t = b/a = sqrt(1 - 0.95²)`, `w = sqrt t`, `S = sqrt((1+3t)(3+t))`, the two bracketed
+    expressions differ by between 1.4e-4 and 1.5e-4 of the second. -/
+theorem switch_scalar {t w S : ℝ} (ht0 : 0 < t) (ht : t ^ 2 = 0.0975) (hw0 : 0 < w) (hw : w ^ 2 = t)
+    (hS0 : 0 < S) (hS : S ^ 2 = (1 + 3 * t) * (3 + t)) :
+    1.4e-4 * (3 * (1 + t) - S) < (21 * ((1 + t) / 2) - 2 * w - 3 * (2 * t / (1 + t))) / 8 - (3 * (1 + t) - S) ∧
+    (21 * ((1 + t) / 2) - 2 * w - 3 * (2 * t / (1 + t))) / 8 - (3 * (1 + t) - S) < 1.5e-4 * (3 * (1 + t) - S) := by
+  have t1 : (0.31224989 : ℝ) < t := by
+    by_contra h; have := not_lt.mp h; nlinarith
+  have t2 : t < (0.31224991 : ℝ) := by
+    by_contra h; have := not_lt.mp h; nlinarith
+  have w1 : (0.5587932 : ℝ) < w := by
+    by_contra h; have := not_lt.mp h; nlinarith
+  have w2 : w < (0.5587933 : ℝ) := by
+    by_contra h; have := not_lt.mp h; nlinarith
+  have S1 : (2.5327847 : ℝ) < S := by
+    by_contra h; have := not_lt.mp h; nlinarith
+  have S2 : S < (2.5327849 : ℝ) := by
+    by_contra h; have := not_lt.mp h; nlinarith
+  -- t/(1+t) between its values at the ends
+  have q1 : (0.31224989 / 1.31224989 : ℝ) < t / (1 + t) := by
+    rw [div_lt_div_iff₀ (by norm_num) (by linarith)]; nlinarith
+  have q2 : t / (1 + t) < (0.31224991 / 1.31224991 : ℝ) := by
+    rw [div_lt_div_iff₀ (by linarith) (by norm_num)]; nlinarith
+  have hq : 3 * (2 * t / (1 + t)) = 6 * (t / (1 + t)) := by ring
+  rw [hq]
+  norm_num at q1 q2 ⊢
+  constructor <;> linarith
+
 end Pymeeus.Refine.TwoBody
